@@ -8,6 +8,7 @@ package nsqlookupd
 // survival, answers and isolation (C15).
 
 import (
+	"net/url"
 	"bytes"
 	"encoding/binary"
 	"encoding/json"
@@ -193,6 +194,9 @@ func (h *lhist) Menu() []string {
 		m = append(m, "ping:"+n, "drop:"+n, "err:"+n)
 	}
 	m = append(m, "mktopic:T", "rmtopic:T", "mkchan:T:C", "rmchan:T:C", "tomb:T:p1")
+	// (the admin deletions also for the ephemeral topic, whose own registration may be gone
+	// while registrations of its channels remain)
+	m = append(m, "rmtopic:E#ephemeral", "rmchan:E#ephemeral:C")
 	if h.cfg.Prods > 1 {
 		m = append(m, "tomb:T:p2")
 	}
@@ -329,7 +333,7 @@ func (h *lhist) Apply(ev string) {
 		}
 		ensure(mReg{"topic", p[1], ""})
 	case "rmtopic":
-		if code, _ := h.w.Do("POST", "/topic/delete?topic="+p[1]); code != 200 {
+		if code, _ := h.w.Do("POST", "/topic/delete?topic="+url.QueryEscape(p[1])); code != 200 {
 			h.bad("C14 admin call failed", "%s: %d", ev, code)
 		}
 		for k := range m.keys {
@@ -344,7 +348,7 @@ func (h *lhist) Apply(ev string) {
 		ensure(mReg{"channel", p[1], p[2]})
 		ensure(mReg{"topic", p[1], ""})
 	case "rmchan":
-		code, _ := h.w.Do("POST", "/channel/delete?topic="+p[1]+"&channel="+p[2])
+		code, _ := h.w.Do("POST", "/channel/delete?topic="+url.QueryEscape(p[1])+"&channel="+url.QueryEscape(p[2]))
 		k := mReg{"channel", p[1], p[2]}
 		_, exists := m.keys[k]
 		if exists != (code == 200) || (!exists && code != 404) {
